@@ -170,7 +170,20 @@ func PostMintBolt11(mintURL string, mintRequest nut04.PostMintBolt11Request) (
 	return &reqMintResponse, nil
 }
 
+// inputsWithoutDLEQ returns a copy of the proofs without their DLEQ proofs.
+// (e, s, r) are only meant for the holder of the proofs: sent along with the
+// inputs they would let the mint link them to the signatures it issued.
+func inputsWithoutDLEQ(proofs cashu.Proofs) cashu.Proofs {
+	inputs := make(cashu.Proofs, len(proofs))
+	for i, proof := range proofs {
+		proof.DLEQ = nil
+		inputs[i] = proof
+	}
+	return inputs
+}
+
 func PostSwap(mintURL string, swapRequest nut03.PostSwapRequest) (*nut03.PostSwapResponse, error) {
+	swapRequest.Inputs = inputsWithoutDLEQ(swapRequest.Inputs)
 	requestBody, err := json.Marshal(swapRequest)
 	if err != nil {
 		return nil, fmt.Errorf("json.Marshal: %v", err)
@@ -245,6 +258,7 @@ func GetMeltQuoteState(mintURL, quoteId string) (*nut05.PostMeltQuoteBolt11Respo
 func PostMeltBolt11(mintURL string, meltRequest nut05.PostMeltBolt11Request) (
 	*nut05.PostMeltQuoteBolt11Response, error) {
 
+	meltRequest.Inputs = inputsWithoutDLEQ(meltRequest.Inputs)
 	requestBody, err := json.Marshal(meltRequest)
 	if err != nil {
 		return nil, fmt.Errorf("json.Marshal: %v", err)
